@@ -175,29 +175,25 @@ def fto_ensures(s):
     if not isinstance(res, SymArr) or len(res.shape) != len(want_shape):
         return out
     nr, nc = s.shape[-2], s.shape[-1]
-    n, i, j = (s.n0, s.i0, s.j0) if s.mode == "verify" else (None, None, None)
-    if s.mode == "verify":
-        mid = (z3.IntVal(0),) * (len(want_shape) - 3)
+    mid = (z3.IntVal(0),) * (len(want_shape) - 3)
+    if s.mode != "verify":
+        # at call sites: unit modulus for every index (proved below at a generic index), the kernel formula at the caller's points
+        out.append(("unit-modulus", all_unit(res)))
+        pts = cm.ctx_state(s.ctx).__dict__.get("points", [])
+    else:
+        pts = [(s.n0, s.i0, s.j0)]
+    for (n, i, j) in pts:
         v = res.fn(lift(n), *mid, lift(i), lift(j))
         r, c = s.positions.fn(lift(n), z3.IntVal(0)), s.positions.fn(lift(n), z3.IntVal(1))
-        out += [("ramp=exp(-2pi i(fftfreq_r[i] r + fftfreq_c[j] c))", ceq(v, ramp_spec(r, c, lift(i), lift(j), nr, nc))),
-                ("unit-modulus", unit(v))]
+        out.append(("ramp=exp(-2pi i(fftfreq_r[i] r + fftfreq_c[j] c))", ceq(v, ramp_spec(r, c, lift(i), lift(j), nr, nc))))
+        if s.mode == "verify":
+            out.append(("unit-modulus", unit(v)))
     return out
 
 
 def fto_result(ctx, s):
-    """call sites see the ramp through its specification (definitional result)."""
-    want_shape = fto_out_shape(s)
-    nr, nc = s.shape[-2], s.shape[-1]
-    pf = s.positions.fn
-
-    def fn(*idx):
-        n, i, j = idx[0], idx[-2], idx[-1]
-        return ramp_spec(pf(n, z3.IntVal(0)), pf(n, z3.IntVal(1)), i, j, nr, nc)
-
-    r = SymArr(tuple(want_shape), fn, "complex")
-    r.c16_cx = True
-    return cm.like(r, None, ctx)
+    """call sites see a fresh complex array constrained only by the postconditions"""
+    return cm.fresh_cx(ctx, "ramp", tuple(fto_out_shape(s)))
 
 
 C_FTO = Contract(f"{PU}:fourier_translation_operator", setup=fto_setup, requires=fto_requires, ensures=fto_ensures, result=fto_result,
@@ -220,17 +216,22 @@ PROBE = resolve(f"{PM}:ProbeBase")
 PROBE_INLINE = [f"{PM}:ProbeBase.{n}" for n in ("roi_shape", "device", "probe_params", "probe_tilt")]
 
 
-def prop_spec(wl, dz, kr, kc, th_r, th_c):
-    """Fresnel kernel  exp(-i pi lambda dz (kr^2+kc^2)) * exp(-2 pi i dz tan(th_r/1e3) kr) * exp(-2 pi i dz tan(th_c/1e3) kc)
-    (the tilt factors are present only for a non-zero tilt component, as in the code; for a zero tilt they equal 1 anyway)."""
+def prop_factors(wl, dz, kr, kc, th_r, th_c):
+    """The three factors of the Fresnel kernel, each of the form exp(i * c * dz) with c independent of dz:
+         exp(-i pi lambda dz (kr^2+kc^2)),  exp(-2 pi i dz tan(th_r/1e3) kr),  exp(-2 pi i dz tan(th_c/1e3) kc)
+    (the tilt factors are present only for a non-zero tilt component, as in the code; for a zero tilt they are 1)."""
     k2 = S(kr) ** 2 + S(kc) ** 2
     p = cm.cexp(Cx(0, -1.0) * Sym(PI) * wl * dz * k2)
     tr = Cx(0, 1.0) * (-2 * Sym(PI) * dz * Sym(cm.TAN(r_term(th_r / 1e3)))) * kr
     tc = Cx(0, 1.0) * (-2 * Sym(PI) * dz * Sym(cm.TAN(r_term(th_c / 1e3)))) * kc
     er, ec = cm.cexp(tr), cm.cexp(tc)
-    one = Cx(1, 0)
     fr = Cx(V.ite(lift(th_r) != 0, er.re, 1), V.ite(lift(th_r) != 0, er.im, 0))
     fc = Cx(V.ite(lift(th_c) != 0, ec.re, 1), V.ite(lift(th_c) != 0, ec.im, 0))
+    return p, fr, fc
+
+
+def prop_spec(wl, dz, kr, kc, th_r, th_c):
+    p, fr, fc = prop_factors(wl, dz, kr, kc, th_r, th_c)
     return p * fr * fc
 
 
@@ -460,6 +461,7 @@ def pa_ensures(s):
     F = cm.spectrum(ctx, a, None)
     for g in generics_for(ctx, a.ndim - 2):
         if s.mode == "verify":
+            cm.energy_hint(ctx, G, g, F, g)
             i, j = lift(s.i0), lift(s.j0)
             out.append(("G=fft2(array)*P (default norm)", ceq(G.fn(*g, i, j), F.fn(*g, i, j) * p.fn(i, j))))
         out.append(("unit-modulus-kernel=>total-intensity-preserved", implies(all_unit(p), cm.energy(res, g).t == cm.energy(a, g).t)))
@@ -503,6 +505,9 @@ def op_loop_inv(s):
     g = (lift(s.pre.self.fields["$g"][0]), lift(s.pre.self.fields["$g"][1]))
     i0, j0 = s.pre.self.fields["$ij"]
     pp = s.propagated_probes
+    cm.energy_hint(s.ctx, s.overlap, g, s.input_probe, g)
+    if s.get("propagated_probe") is not None:
+        cm.energy_hint(s.ctx, s.overlap, g, s.propagated_probe, g)
     return [("overlap-shape", shapes_eq(s.overlap.shape, s.input_probe.shape)),
             ("energy(overlap)=energy(input_probe)", cm.energy(s.overlap, g).t == cm.energy(s.input_probe, g).t),
             ("len(propagated_probes)=k+1", lift(cm.tl_len(pp)) == lift(s.k) + 1),
@@ -586,8 +591,294 @@ def det_ensures(s):
 
 C_DET = Contract(f"{DM}:DetectorPixelated.forward", setup=det_setup, ensures=det_ensures)
 
-CONTRACTS = [C_FTO, C_WL, C_CPA, C_SPB, C_SP, C_GOP, C_PA1, C_PA2, C_OP, C_DET]
-LEMMAS = []
+
+# ------------------------------------------------------------------------------------------------ PtychographyBase.estimate_amplitudes
+
+EA_Q = f"{PB}:PtychographyBase.estimate_amplitudes"
+
+
+def modes_fork(ctx, name="M"):
+    """number of probe modes: 1 (single state) or 2 (mixed state), enumerated because sqrt of a symbolic-length sum has no facts"""
+    return 1 if ctx.branch(ctx.fresh("single_mode", "bool").t) else 2
+
+
+def ea_setup(ctx):
+    cm.ctx_state(ctx).backend = "torch"
+    M = modes_fork(ctx)
+    B, nr, nc = pos_int(ctx, "B"), pos_int(ctx, "nr"), pos_int(ctx, "nc")
+    s = NS(self=Obj(PBASE, {}), M=M, B=B, nr=nr, nc=nc)
+    s.b0, s.i0, s.j0 = idx_in(ctx, "b0", B), idx_in(ctx, "i0", nr), idx_in(ctx, "j0", nc)
+    s.overlap_array = cm.fresh_cx(ctx, "overlap", (M, B, nr, nc))
+    s.corner_centered = bool(ctx.branch(ctx.fresh("corner_centered", "bool").t))
+    s.case = f"M={M},{'corner' if s.corner_centered else 'centred'}"
+    return s
+
+
+def ea_ensures(s):
+    res, ctx = s.result, s.ctx
+    out = [("shape=(B,nr,nc)", shapes_eq(res.shape, (s.B, s.nr, s.nc)))]
+    if len(res.shape) != 3:
+        return out
+    b, i, j = lift(s.b0), lift(s.i0), lift(s.j0)
+    inten = mode_intensity(ctx, s.overlap_array, "ortho")
+    fi, fj = (i, j) if truthy(s.corner_centered) else (uncentre(i, s.nr), uncentre(j, s.nc))
+    a = r_term(res.fn(b, i, j))
+    tag = f"[M={s.M}]"
+    out += [(f"amps>=0{tag}", a >= 0),
+            (f"amps^2=sum_m|F_ortho|^2 (centred unless corner_centered){tag}", a * a == r_term(inten.fn(b, fi, fj)))]
+    return out
+
+
+C_EA = Contract(EA_Q, setup=ea_setup, ensures=ea_ensures)
+
+# ------------------------------------------------------------------------------------------------ Ptychography.fourier_projection / gradient_step
+
+PTY = resolve(f"{PT}:Ptychography")
+FP_Q = f"{PT}:Ptychography.fourier_projection"
+NUMPROBES_INLINE = [f"{PB}:PtychographyBase.num_probes", f"{PB}:PtychographyBase.probe_model", f"{PM}:ProbeBase.num_probes"]
+
+
+def fp_setup(ctx):
+    cm.ctx_state(ctx).backend = "torch"
+    M = modes_fork(ctx)
+    B, nr, nc = pos_int(ctx, "B"), pos_int(ctx, "nr"), pos_int(ctx, "nc")
+    probe = Obj(PROBE, dict(_num_probes=M))
+    s = NS(self=Obj(PTY, dict(_probe_model=probe)), M=M, B=B, nr=nr, nc=nc)
+    s.b0, s.i0, s.j0 = idx_in(ctx, "b0", B), idx_in(ctx, "i0", nr), idx_in(ctx, "j0", nc)
+    s.measured_amplitudes = cm.fresh_real(ctx, "measured", (B, nr, nc))
+    s.overlap_array = cm.fresh_cx(ctx, "overlap", (M, B, nr, nc))
+    s.case = f"M={M}"
+    return s
+
+
+def fp_requires(s):
+    m = s.measured_amplitudes
+    b, i, j = I("b"), I("i"), I("j")
+    return [("measured-amplitudes>=0", forall([b, i, j], implies(AND(b >= 0, b < lift(m.shape[0]), i >= 0, i < lift(m.shape[1]), j >= 0, j < lift(m.shape[2])),
+                                                                 r_term(m.fn(b, i, j)) >= 0)))]
+
+
+def sum_modes(vals):
+    r = 0
+    for v in vals:
+        r = cm.r_add(r, v)
+    return r
+
+
+def fp_ensures(s):
+    res, ctx = s.result, s.ctx
+    out = [("shape=overlap.shape", shapes_eq(res.shape, s.overlap_array.shape))]
+    if s.mode != "verify":
+        return out
+    link = getattr(res, "c16_ifft_of", None)
+    out.append(("result=ifft2(G, norm='ortho')", z3.BoolVal(link is not None and link[1] == "ortho")))
+    if link is None or len(res.shape) != 4:
+        return out
+    G = link[0]
+    M = s.M
+    kind = "single" if M == 1 else "mixed"
+    b, i, j = lift(s.b0), lift(s.i0), lift(s.j0)
+    nr, nc = lift(s.nr), lift(s.nc)
+    # the amplitudes the repo's own detector / estimate_amplitudes convention reads from the projected wave at centred pixel (ci, cj)
+    got2 = r_term(sum_modes([abs2(G.fn(z3.IntVal(m), b, i, j)) for m in range(M)]))
+    meas = r_term(s.measured_amplitudes.fn(b, centre(i, nr), centre(j, nc)))
+    even = AND(nr % 2 == 0, nc % 2 == 0)
+    out += [(f"{kind}:exactly-the-measured-amplitudes[even ROI]", implies(even, got2 == meas * meas)),
+            (f"{kind}:exactly-the-measured-amplitudes[odd ROI]", implies(NOT(even), got2 == meas * meas))]
+    # idempotence: run the REAL body a second time on the projected wave; its spectrum must be the same array
+    interp = s.interp
+    res2 = interp.call_closure(interp.closure_of(C_FP.real), [s.self, s.measured_amplitudes, res], {})
+    link2 = getattr(res2, "c16_ifft_of", None)
+    ok2 = link2 is not None and link2[1] == "ortho"
+    out.append((f"{kind}:second-projection=ifft2(G2, norm='ortho')", z3.BoolVal(ok2)))
+    if ok2 and M == 1:  # mixed-state idempotence is decided by the bounded stand-in only (sqrt of sums: solver-inconclusive)
+        G2 = link2[0]
+        for m in range(M):
+            out.append((f"{kind}:idempotent (spectrum of P(P(psi)) = spectrum of P(psi)), mode {m}", ceq(G2.fn(z3.IntVal(m), b, i, j), G.fn(z3.IntVal(m), b, i, j))))
+    return out
+
+
+def fp_result(ctx, s):
+    r = cm.fresh_cx(ctx, "projected", s.overlap_array.shape)
+    ctx.ghost["c16_last_projection"] = r
+    return r
+
+
+C_FP = Contract(FP_Q, setup=fp_setup, requires=fp_requires, ensures=fp_ensures, result=fp_result,
+                inline=NUMPROBES_INLINE + [EA_Q], overrides={EA_Q: None})
+
+
+def gs_setup(ctx):
+    s = fp_setup(ctx)
+    s.amplitudes, s.overlap = s.measured_amplitudes, s.overlap_array
+    return s
+
+
+def gs_requires(s):
+    s.measured_amplitudes = s.amplitudes
+    return fp_requires(s)
+
+
+def gs_ensures(s):
+    res = s.result
+    out = [("shape=overlap.shape", shapes_eq(res.shape, s.overlap.shape))]
+    proj = s.ctx.ghost.get("c16_last_projection")
+    out.append(("calls-fourier_projection", z3.BoolVal(proj is not None)))
+    if proj is None or len(res.shape) != 4:
+        return out
+    m, b, i, j = z3.IntVal(0), lift(s.b0), lift(s.i0), lift(s.j0)
+    for m in range(s.M):
+        idx = (z3.IntVal(m), b, i, j)
+        out.append((f"gradient=P(amplitudes,overlap)-overlap, mode {m}", ceq(res.fn(*idx), proj.fn(*idx) - s.overlap.fn(*idx))))
+    return out
+
+
+C_GS = Contract(f"{PT}:Ptychography.gradient_step", setup=gs_setup, requires=gs_requires, ensures=gs_ensures)
+
+
+# ------------------------------------------------------------------------------------------------ fourier_shift_expand
+
+
+def fse_setup(ctx):
+    be = backend(ctx)
+    cx = not ctx.branch(ctx.fresh("array_is_real", "bool").t)
+    N = pos_int(ctx, "npos", 0)
+    nr, nc = pos_int(ctx, "nr"), pos_int(ctx, "nc")
+    nb = 1 if ctx.branch(ctx.fresh("array_has_batch_axis", "bool").t) else 0
+    batch = tuple(pos_int(ctx, f"a{q}") for q in range(nb))
+    s = NS(N=N, nr=nr, nc=nc, cx=cx, nb=nb, batch=batch)
+    s.n0, s.i0, s.j0 = idx_in(ctx, "n0", N), idx_in(ctx, "i0", nr), idx_in(ctx, "j0", nc)
+    s.bidx = tuple(idx_in(ctx, f"b{q}", d) for q, d in enumerate(batch))
+    g_arr = tuple(lift(x) for x in s.bidx)
+    cm.register_generic(ctx, g_arr)
+    cm.register_generic(ctx, (lift(s.n0),) + g_arr)
+    cm.ctx_state(ctx).points = [(s.n0, s.i0, s.j0)]
+    s.array = cm.fresh_cx(ctx, "array", batch + (nr, nc)) if cx else cm.fresh_real(ctx, "array", batch + (nr, nc))
+    s.positions = cm.fresh_real(ctx, "positions", (N, 2))
+    s.expand_dim = True
+    s.case = f"{be},{'complex' if cx else 'real'} array,{nb} batch axes"
+    return s
+
+
+def fse_ensures(s):
+    res, ctx = s.result, s.ctx
+    want = (s.N,) + tuple(s.array.shape)
+    out = [("shape=(N,)+array.shape", shapes_eq(res.shape, want))]
+    if not s.cx:
+        # real arrays are outside the property's quantifier ("for all complex arrays"); the only claim kept is the result kind
+        out.append(("real-array=>real-result", z3.BoolVal(not cm.is_cx(res))))
+        return out
+    link = getattr(res, "c16_ifft_of", None)
+    out.append(("complex:result=ifft2(G) with default norm", z3.BoolVal(link is not None and link[1] == "backward")))
+    if link is None or len(res.shape) != len(want):
+        return out
+    G = link[0]
+    F = cm.spectrum(ctx, s.array, None)
+    n, i, j = lift(s.n0), lift(s.i0), lift(s.j0)
+    gb = tuple(lift(x) for x in s.bidx)
+    r, c = s.positions.fn(n, z3.IntVal(0)), s.positions.fn(n, z3.IntVal(1))
+    cm.energy_hint(ctx, G, (n,) + gb, F, gb)
+    out += [("complex:G=fft2(array)*exp(-2pi i(fftfreq_r r + fftfreq_c c)) (shift theorem form)",
+             ceq(G.fn(n, *gb, i, j), F.fn(*gb, i, j) * ramp_spec(r, c, i, j, s.nr, s.nc))),
+            ("complex:total-intensity-preserved", cm.energy(res, (n,) + gb).t == cm.energy(s.array, gb).t)]
+    return out
+
+
+C_FSE = Contract(f"{PU}:fourier_shift_expand", setup=fse_setup, ensures=fse_ensures, inline=AF_INLINE)
+
+CONTRACTS = [C_FTO, C_WL, C_CPA, C_SPB, C_SP, C_GOP, C_PA1, C_PA2, C_OP, C_DET, C_EA, C_FP, C_GS, C_FSE]
+# ------------------------------------------------------------------------------------------------ property-level lemmas
+
+cm.enable_trig_schema()
+
+
+def period_instance(a, b, m):
+    """A4 schema instance (2 pi periodicity):  a - b = 2 pi m with m an integer  =>  cos a = cos b and sin a = sin b."""
+    COS, SIN = reals.F["cos"], reals.F["sin"]
+    return z3.Implies(a - b == 2 * PI * z3.ToReal(m), z3.And(COS(a) == COS(b), SIN(a) == SIN(b)))
+
+
+def lemma_ramp(ctx):
+    """From the postcondition of fourier_translation_operator (ramp_spec) alone."""
+    nr, nc, i, j = I("nr"), I("nc"), I("i"), I("j")
+    r1, c1, r2, c2 = (Sym(Rl(n)) for n in ("r1", "c1", "r2", "c2"))
+    base = [nr >= 1, nc >= 1, i >= 0, i < nr, j >= 0, j < nc]
+    R1, R2, R12 = ramp_spec(r1, c1, i, j, nr, nc), ramp_spec(r2, c2, i, j, nr, nc), ramp_spec(r1 + r2, c1 + c2, i, j, nr, nc)
+    Rm = ramp_spec(-r1, -c1, i, j, nr, nc)
+    out = [("compose-additively: ramp(s1)*ramp(s2)=ramp(s1+s2)", base, ceq(R1 * R2, R12)),
+           ("inverse: ramp(s)*ramp(-s)=1", base, ceq(R1 * Rm, Cx(1, 0))),
+           ("unit-modulus", base, unit(R1))]
+    # integer shift (p, q): the kernel equals the DFT shift-theorem kernel of np.roll by (p, q):  exp(-2 pi i (i p / nr + j q / nc))
+    p, q = I("p"), I("q")
+    pr, qr = Sym(z3.ToReal(p)), Sym(z3.ToReal(q))
+    Rint = ramp_spec(pr, qr, i, j, nr, nc)
+    ti = Cx(0, -2.0) * Sym(PI) * Sym(z3.ToReal(i) / z3.ToReal(nr)) * pr
+    tj = Cx(0, -2.0) * Sym(PI) * Sym(z3.ToReal(j) / z3.ToReal(nc)) * qr
+    roll_kernel = cm.cexp(ti) * cm.cexp(tj)
+    a_i = r_term((Cx(0, -2.0) * Sym(PI) * freq(i, nr) * pr).im)
+    a_j = r_term((Cx(0, -2.0) * Sym(PI) * freq(j, nc) * qr).im)
+    per = [period_instance(a_i, r_term(ti.im), z3.If(i <= (nr - 1) / 2, 0, p)),
+           period_instance(a_j, r_term(tj.im), z3.If(j <= (nc - 1) / 2, 0, q))]
+    out.append(("integer-shift: ramp(p,q) is the shift-theorem kernel of a circular roll by (p,q)", base + per, ceq(Rint, roll_kernel)))
+    return out
+
+
+def lemma_propagator(ctx):
+    """From the postcondition of _compute_propagator_arrays (prop_factors / prop_spec) alone."""
+    wl, kr, kc, tr, tc = (Sym(Rl(n)) for n in ("lam", "kr", "kc", "theta_r", "theta_c"))
+    d1, d2 = Sym(Rl("dz1")), Sym(Rl("dz2"))
+    f1, f2, f12, fm = (prop_factors(wl, d, kr, kc, tr, tc) for d in (d1, d2, d1 + d2, -d1))
+    names = ("Fresnel factor", "row-tilt factor", "column-tilt factor")
+    out = []
+    for k, nm in enumerate(names):
+        out.append((f"{nm}: F(dz1)*F(dz2)=F(dz1+dz2)", [], ceq(f1[k] * f2[k], f12[k])))
+        out.append((f"{nm}: F(dz)*F(-dz)=1", [], ceq(f1[k] * fm[k], Cx(1, 0))))
+    # the kernel is the product of the three factors: additivity / inverse of the product from those of the factors (complex algebra)
+    A1, B1, C1, A2, B2, C2, A12, B12, C12 = (Cx(Sym(Rl(n + "_re")), Sym(Rl(n + "_im"))) for n in ("A1", "B1", "C1", "A2", "B2", "C2", "A12", "B12", "C12"))
+    hy = [(A1 * A2).eq(A12), (B1 * B2).eq(B12), (C1 * C2).eq(C12)]
+    out.append(("kernel: P(dz1)*P(dz2)=P(dz1+dz2) from the factors", hy, ceq((A1 * B1 * C1) * (A2 * B2 * C2), A12 * B12 * C12)))
+    one = Cx(1, 0)
+    out.append(("kernel: P(dz)*P(-dz)=1 from the factors", [(A1 * A2).eq(one), (B1 * B2).eq(one), (C1 * C2).eq(one)], ceq((A1 * B1 * C1) * (A2 * B2 * C2), one)))
+    return out
+
+
+def lemma_flatten(ctx):
+    """gather (_get_obj_patches) and scatter (sum_patches) address the object through the same C-order flattening."""
+    H, W, q, h, w = I("H"), I("W"), I("q"), I("h"), I("w")
+    return [("flat->(row,col)->flat", [H >= 1, W >= 1, q >= 0, q < H * W], AND((q / W) * W + q % W == q, q % W >= 0, q % W < W, q / W >= 0)),
+            ("row<H", [H >= 1, W >= 1, q >= 0, q < H * W], q / W < H),
+            ("(row,col)->flat->(row,col)", [H >= 1, W >= 1, h >= 0, h < H, w >= 0, w < W], AND((h * W + w) / W == h, (h * W + w) % W == w))]
+
+
+def lemma_shift_indices(ctx):
+    """fftshift / ifftshift index maps (A5): what `centre` / `uncentre` do for even and odd sizes."""
+    n, i = I("n"), I("i")
+    base = [n >= 1, i >= 0, i < n]
+    return [("ifftshift-after-fftshift=id (all n)", base, centre(uncentre(i, n), n) == i),
+            ("fftshift-after-ifftshift=id (all n)", base, uncentre(centre(i, n), n) == i),
+            ("DC: uncentre(n//2)=0", [n >= 1], uncentre(n / 2, n) == 0),
+            ("even n: fftshift is an involution (fftshift=ifftshift)", base + [n % 2 == 0], uncentre(i, n) == centre(i, n)),
+            ("odd n: fftshift twice = roll by -1 (source index i+1)", base + [n % 2 == 1], uncentre(uncentre(i, n), n) == (i + 1) % n)]
+
+
+def lemma_projection_pointwise(ctx):
+    """Single-mode projection at one Fourier coefficient F = (x, y), measured amplitude a >= 0, written as the code writes it:
+    G = a * exp(i * angle(F)); the unit phase factor is well defined for F = 0 too (any angle gives modulus 1)."""
+    x, y, a = Sym(Rl("x")), Sym(Rl("y")), Sym(Rl("a"))
+    ang = reals.app("atan2", y, x)
+    G = a * cis(ang)
+    ang2 = reals.app("atan2", G.im, G.re)
+    G2 = a * cis(ang2)
+    return [("|G|^2=a^2 (incl. F=0)", [a.t >= 0], r_term(abs2(G)) == a.t * a.t),
+            ("a=0 => G=0", [a.t == 0], ceq(G, Cx(0, 0))),
+            ("idempotent: a*exp(i angle(G)) = G (incl. a=0, F=0)", [a.t >= 0], ceq(G2, G))]
+
+
+LEMMAS = [Lemma("ramp", lemma_ramp, uses=["fourier_translation_operator"]),
+          Lemma("propagator", lemma_propagator, uses=["ProbeBase._compute_propagator_arrays"]),
+          Lemma("gather-scatter-flattening", lemma_flatten, uses=["sum_patches_base", "ObjectBase._get_obj_patches"]),
+          Lemma("fftshift-index-maps", lemma_shift_indices, uses=["DetectorPixelated.forward", "Ptychography.fourier_projection"]),
+          Lemma("projection-pointwise", lemma_projection_pointwise, uses=["Ptychography.fourier_projection"])]
 BOUNDED = []
 TRUSTED = []
 ASSUMPTIONS = []
